@@ -484,14 +484,22 @@ Proof.
     eexists. split; [reflexivity|]. split; [|reflexivity]. constructor; bsimpl; auto. congruence.
 Qed.
 
+(* the end of a container is reached in the state that follows a complete value: in a struct that is "before a field
+   name" (a field name without a value is an error there) *)
 Lemma b_next_container_end b inp st c e stk : BS b inp st ((c, e) :: stk) tot ->
-  st = bssBeforeValue \/ st = bssBeforeFieldID -> b_pos b = e ->
+  st = sav ((c, e) :: stk) -> b_pos b = e ->
   exists b', b_next b = (b', Ok tt) /\ BS b' inp st ((c, e) :: stk) tot /\ b_code b' = bcEOF /\ b_pos b' = e.
 Proof.
-  intros [I Ein St Es Nl Nw] Hq He. unfold b_next.
+  intros [I Ein St Es Nl Nw] Hs He.
+  assert (Hq : st = bssBeforeValue \/ st = bssBeforeFieldID)
+    by (rewrite Hs; unfold sav; cbn [fst]; destruct (c =? bcStruct); auto).
+  assert (Hd : (c =? bcStruct) && (st =? bssBeforeValue) = false)
+    by (rewrite Hs; unfold sav; cbn [fst]; destruct (c =? bcStruct); reflexivity).
+  unfold b_next.
   assert (Eq : (b_state b =? bssOnValue) || (b_state b =? bssOnFieldID) = false)
     by (rewrite St; destruct Hq as [Hq|Hq]; rewrite Hq; reflexivity).
   rewrite Eq. cbv iota beta. rewrite Es. replace (b_pos b =? e) with true by lia. cbv iota.
+  rewrite St, Hd.
   eexists. split; [reflexivity|]. split; [|split; [reflexivity|exact He]].
   constructor; bsimpl; auto. destruct I as (C & F & L0). split; [exact C|]. bsimpl.
   split; [intros E; exfalso; rewrite St in E; destruct Hq as [Hq|Hq]; rewrite Hq in E; discriminate E|exact L0].
